@@ -177,6 +177,24 @@ Definition tfun := path -> option (Z * tv).
 Definition tfset (f : tfun) (k : path) (ts : Z) (v : tv) : tfun :=
   fun k' => if path_eqb k' k then Some (ts, v) else f k'.
 
+Definition tfupd (f : tfun) (k : path) (ts : Z) (v : tv) : tfun :=
+  fun k' => if path_eqb k' k then newer (f k') ts v else f k'.
+
+Lemma tfupd_set f k ts v :
+  match f k with Some (t0, _) => (ts <? t0) = false | None => True end ->
+  forall k', tfupd f k ts v k' = tfset f k ts v k'.
+Proof.
+  intros H k'. unfold tfupd, tfset. destruct (path_eqb_spec k' k) as [->|_]; [|reflexivity].
+  unfold newer. destruct (f k) as [[t0 v0]|]; [now rewrite H|reflexivity].
+Qed.
+
+Lemma tfupd_older f k ts v t0 v0 :
+  f k = Some (t0, v0) -> (ts <? t0) = true -> forall k', tfupd f k ts v k' = f k'.
+Proof.
+  intros H Hlt k'. unfold tfupd. destruct (path_eqb_spec k' k) as [->|_]; [|reflexivity].
+  unfold newer. now rewrite H, Hlt.
+Qed.
+
 Definition tfdel (f : tfun) (d : path) (ts : Z) : tfun :=
   fun k' => match f k' with
             | Some (t0, v) => if qmatch d k' && (t0 <? ts) then None else Some (t0, v)
@@ -742,13 +760,12 @@ Qed.
 (** ** Target.gnmiUpdate for one update of the subscribed target *)
 Lemma update_step T H gen sub TF r :
   ninv T H gen sub TF -> rec_ok r ->
-  (forall k t0 v, TF k = Some (t0, v) -> t0 <= lr_ts r) ->
   (forall k', TF k' <> None -> conflict k' (idx r) = false) ->
   let w := cache_update_one {| w_tree := T; w_heap := H; w_gen := gen; w_sub := sub; w_fault := None |} r in
   w_fault w = None /\
-  ninv (w_tree w) (w_heap w) (w_gen w) (w_sub w) (tfset TF (idx r) (lr_ts r) (lr_val r)).
+  ninv (w_tree w) (w_heap w) (w_gen w) (w_sub w) (tfupd TF (idx r) (lr_ts r) (lr_val r)).
 Proof.
-  intros Hinv Hr Hts Hnc. unfold cache_update_one. cbn [w_fault w_tree w_heap w_gen w_sub].
+  intros Hinv Hr Hnc. unfold cache_update_one. cbn [w_fault w_tree w_heap w_gen w_sub].
   rewrite (join_ok r Hr).
   assert (Hcons : exists tl, idx r = g_origin (lr_prefix r) :: tl) by (eexists; reflexivity).
   destruct Hcons as (tl & Hcons). rewrite Hcons. cbv beta iota. rewrite <- Hcons.
@@ -768,11 +785,15 @@ Proof.
   - (* existing leaf *)
     apply get_leaf_exact in Hget. destruct (N2 _ _ Hget) as (Hlt & old & Hold & Hoko & Hidx & Htf).
     rewrite Hold. destruct (lr_ts r <? lr_ts old) eqn:E1.
-    { apply Z.ltb_lt in E1. specialize (Hts _ _ _ Htf). lia. }
+    { (* older than the stored value: ErrStale, nothing changes *)
+      split; [reflexivity|]. cbn [w_tree w_heap w_gen w_sub].
+      apply ninv_ext with (TF := TF); [|constructor; assumption].
+      intros k. now apply (tfupd_older TF (idx r) (lr_ts r) (lr_val r) _ _ Htf E1). }
     destruct ((lr_ts r =? lr_ts old) && leafrec_eqb old r) eqn:E2.
     { split; [reflexivity|]. cbn [w_tree w_heap w_gen w_sub].
       apply ninv_ext with (TF := TF); [|constructor; assumption].
-      intros k. unfold tfset. destruct (path_eqb_spec k (idx r)) as [->|]; [|reflexivity].
+      intros k. rewrite (tfupd_set TF (idx r)) by (now rewrite Htf). unfold tfset.
+      destruct (path_eqb_spec k (idx r)) as [->|]; [|reflexivity].
       rewrite Htf. apply andb_true_iff in E2 as [_ E2]. destruct (leafrec_eqb_val _ _ E2) as [-> ->].
       reflexivity. }
     assert (Htree : forall k g0, lookup T k = Some g0 ->
@@ -788,7 +809,10 @@ Proof.
     assert (Hheap : forall g0 r0, hget (hset H g r) g0 = Some r0 -> (g0 < gen)%nat).
     { intros g0 r0. rewrite hget_hset. destruct (Nat.eqb_spec g0 g) as [->|_]; [auto|apply N4]. }
     destruct (tv_equal (lr_val old) (lr_val r)) eqn:Eeq; cbn [w_fault w_tree w_heap w_gen w_sub];
-      (split; [reflexivity|]); constructor; auto; try exact Hpf'.
+      (split; [reflexivity|]);
+      (apply ninv_ext with (TF := tfset TF (idx r) (lr_ts r) (lr_val r));
+       [intros k0; apply tfupd_set; now rewrite Htf|]);
+      constructor; auto; try exact Hpf'.
     + destruct sub as [sb|]; [|exact I].
       replace sb with {| sb_target := sb_target sb; sb_query := sb_query sb; sb_queue := sb_queue sb;
                          sb_client := sb_client sb |} by (destruct sb; reflexivity).
@@ -824,7 +848,10 @@ Proof.
     destruct (add T (idx r) gen) as [T'|] eqn:Hadd.
     2:{ exfalso. apply (add_ok_iff T (idx r) gen N1) in Hcf. congruence. }
     destruct (add_spec T T' (idx r) gen N1 Hadd) as [Hwf' HT'].
-    cbn [w_fault w_tree w_heap w_gen w_sub]. split; [reflexivity|]. constructor; auto; try exact Hpf'.
+    cbn [w_fault w_tree w_heap w_gen w_sub]. split; [reflexivity|].
+    apply ninv_ext with (TF := tfset TF (idx r) (lr_ts r) (lr_val r));
+      [intros k0; apply tfupd_set; now rewrite Htfn|].
+    constructor; auto; try exact Hpf'.
     + intros k g0. rewrite HT'. rewrite hget_hset. unfold tfset.
       destruct (path_eqb_spec k (idx r)) as [->|Hne].
       * intros E; inversion E; subst g0. split; [lia|]. rewrite Nat.eqb_refl. exists r. auto.
@@ -1027,27 +1054,13 @@ Qed.
 Definition skey (pre p : gpath) : path := g_origin pre :: strs_of pre ++ strs_of p.
 
 Definition tf_updates (TF : tfun) (pre : gpath) (ts : Z) (us : list (gpath * tv)) : tfun :=
-  fold_left (fun f u => tfset f (skey pre (fst u)) ts (snd u)) us TF.
+  fold_left (fun f u => tfupd f (skey pre (fst u)) ts (snd u)) us TF.
 
 Definition tf_deletes (TF : tfun) (pre : gpath) (ts : Z) (ds : list gpath) : tfun :=
   fold_left (fun f d => tfdel f (skey pre d) ts) ds TF.
 
-Definition tf_bound (TF : tfun) (t : Z) : Prop := forall k t0 v, TF k = Some (t0, v) -> t0 <= t.
-
 Definition winv (w : wstate) (TF : tfun) : Prop :=
   w_fault w = None /\ ninv (w_tree w) (w_heap w) (w_gen w) (w_sub w) TF.
-
-Lemma tf_bound_set TF k t v : tf_bound TF t -> tf_bound (tfset TF k t v) t.
-Proof.
-  intros Hb k' t0 v0. unfold tfset. destruct (path_eqb k' k); [|apply Hb].
-  intros E; inversion E; subst. lia.
-Qed.
-
-Lemma tf_bound_del TF d t t' : tf_bound TF t -> tf_bound (tfdel TF d t') t.
-Proof.
-  intros Hb k' t0 v0. unfold tfdel. destruct (TF k') as [[t1 v1]|] eqn:E; [|discriminate].
-  destruct (qmatch d k' && (t1 <? t')); [discriminate|]. intros E'; inversion E'; subst. eapply Hb; eauto.
-Qed.
 
 (** each update finds no stored path that is a proper prefix or extension of its own *)
 Fixpoint pf_upds (TF : tfun) (pre : gpath) (ts : Z) (us : list (gpath * tv)) : Prop :=
@@ -1055,43 +1068,38 @@ Fixpoint pf_upds (TF : tfun) (pre : gpath) (ts : Z) (us : list (gpath * tv)) : P
   | [] => True
   | u :: us' =>
       (forall k', TF k' <> None -> conflict k' (skey pre (fst u)) = false)
-      /\ pf_upds (tfset TF (skey pre (fst u)) ts (snd u)) pre ts us'
+      /\ pf_upds (tfupd TF (skey pre (fst u)) ts (snd u)) pre ts us'
   end.
 
+(** every update in order (accepted or rejected as stale), then every delete *)
 Lemma noti_step w TF pre ts us ds :
-  winv w TF -> tf_bound TF ts ->
+  winv w TF ->
   g_target pre = name -> g_origin pre <> "" -> g_origin pre <> meta_root ->
   (forall u, In u us -> rec_ok {| lr_ts := ts; lr_prefix := pre; lr_path := fst u; lr_val := snd u |}) ->
   pf_upds TF pre ts us ->
   let n := {| n_ts := ts; n_prefix := Some pre; n_updates := us; n_deletes := ds |} in
-  winv (target_gnmi_update w n pre) (tf_deletes (tf_updates TF pre ts us) pre ts ds)
-  /\ tf_bound (tf_deletes (tf_updates TF pre ts us) pre ts ds) ts.
+  winv (target_gnmi_update w n pre) (tf_deletes (tf_updates TF pre ts us) pre ts ds).
 Proof.
-  intros Hw Hb Ht Ho Hm Hus Hpfu. cbn zeta. unfold target_gnmi_update. cbn [n_ts n_updates n_deletes].
-  assert (Hu : forall us0 w TF, winv w TF -> tf_bound TF ts ->
+  intros Hw Ht Ho Hm Hus Hpfu. cbn zeta. unfold target_gnmi_update. cbn [n_ts n_updates n_deletes].
+  assert (Hu : forall us0 w TF, winv w TF ->
     (forall u, In u us0 -> rec_ok {| lr_ts := ts; lr_prefix := pre; lr_path := fst u; lr_val := snd u |}) ->
     pf_upds TF pre ts us0 ->
     winv (fold_left (fun w u => cache_update_one w {| lr_ts := ts; lr_prefix := pre; lr_path := fst u; lr_val := snd u |}) us0 w)
-         (tf_updates TF pre ts us0) /\ tf_bound (tf_updates TF pre ts us0) ts).
-  { clear Hw Hb Hus Hpfu w TF. induction us0 as [|u us0 IH]; intros w TF Hw Hb Hus Hpfu;
+         (tf_updates TF pre ts us0)).
+  { clear Hw Hus Hpfu w TF. induction us0 as [|u us0 IH]; intros w TF Hw Hus Hpfu;
       cbn [fold_left tf_updates]; [auto|].
     destruct Hpfu as [Hnc Hpfu]. apply IH.
     - destruct w as [T H gen sub flt]. destruct Hw as [Hf Hn]. cbn in Hf, Hn. subst flt.
-      apply (update_step T H gen sub TF _ Hn (Hus u (or_introl eq_refl))); [exact Hb|exact Hnc].
-    - now apply tf_bound_set.
+      apply (update_step T H gen sub TF _ Hn (Hus u (or_introl eq_refl))). exact Hnc.
     - intros; apply Hus; now right.
     - exact Hpfu. }
-  assert (Hd : forall ds0 w TF, winv w TF -> tf_bound TF ts ->
-    winv (fold_left (cache_delete_one ts pre) ds0 w) (tf_deletes TF pre ts ds0)
-    /\ tf_bound (tf_deletes TF pre ts ds0) ts).
-  { clear Hu Hus Hpfu Hw Hb w TF. induction ds0 as [|d ds0 IH]; intros w TF Hw Hb; cbn [fold_left tf_deletes]; [auto|].
-    apply IH.
-    - destruct w as [T H gen sub flt]. destruct Hw as [Hf Hn]. cbn in Hf, Hn. subst flt.
-      apply (delete_step T H gen sub TF pre d ts Hn Ht Ho Hm).
-    - now apply tf_bound_del. }
-  destruct (Hu us w TF Hw Hb Hus Hpfu) as [Hw1 Hb1]. now apply Hd.
+  assert (Hd : forall ds0 w TF, winv w TF ->
+    winv (fold_left (cache_delete_one ts pre) ds0 w) (tf_deletes TF pre ts ds0)).
+  { clear Hu Hus Hpfu Hw w TF. induction ds0 as [|d ds0 IH]; intros w TF Hw; cbn [fold_left tf_deletes]; [auto|].
+    apply IH. destruct w as [T H gen sub flt]. destruct Hw as [Hf Hn]. cbn in Hf, Hn. subst flt.
+    apply (delete_step T H gen sub TF pre d ts Hn Ht Ho Hm). }
+  apply Hd. now apply Hu.
 Qed.
-
 
 (** ** the sender forwards one queue entry *)
 
@@ -1342,45 +1350,28 @@ Definition pinv (st : pstate) (TF : tfun) : Prop :=
   ps_fault st = None /\
   exists T, assoc name (ps_cache st) = Some T /\ ninv T (ps_heap st) (ps_gen st) (ps_sub st) TF.
 
-Definition bound_opt (TF : tfun) (last : option Z) : Prop :=
-  match last with Some t => tf_bound TF t | None => forall k, TF k = None end.
-
-Lemma ingest_own st TF it last :
-  pinv st TF -> item_good it -> pf_item TF it -> bound_opt TF last -> ts_increasing last [it] = true ->
-  pinv (ingest st name it) (tf_item TF it) /\
-  bound_opt (tf_item TF it) (match it with IUpd n => Some (n_ts n) | ISync => last end).
+Lemma ingest_own st TF it :
+  pinv st TF -> item_good it -> pf_item TF it ->
+  pinv (ingest st name it) (tf_item TF it).
 Proof.
-  intros [Hf (T & HT & Hn)] Hg Hpfi Hb Hts. unfold ingest. rewrite Hf.
-  destruct it as [|n]; [split; [split; eauto|assumption]|].
+  intros [Hf (T & HT & Hn)] Hg Hpfi. unfold ingest. rewrite Hf.
+  destruct it as [|n]; [split; eauto|].
   rewrite stamp_spre. cbn [n_prefix]. rewrite HT. destruct Hg as [Hm Hus].
-  assert (Hb' : tf_bound TF (n_ts n)).
-  { destruct last as [t|]; cbn in Hb, Hts.
-    - rewrite andb_true_r in Hts. apply Z.ltb_lt in Hts. intros k t0 v E. specialize (Hb _ _ _ E). lia.
-    - intros k t0 v E. now rewrite Hb in E. }
   pose proof (noti_step {| w_tree := T; w_heap := ps_heap st; w_gen := ps_gen st; w_sub := ps_sub st; w_fault := None |}
                 TF (spre n) (n_ts n) (n_updates n) (n_deletes n)
-                (conj eq_refl Hn) Hb' (spre_target n) (spre_origin n) Hm Hus Hpfi) as [[Hwf Hwn] Hbb].
-  cbn zeta in Hwf, Hwn. split; [|exact Hbb]. split; [exact Hwf|].
+                (conj eq_refl Hn) (spre_target n) (spre_origin n) Hm Hus Hpfi) as [Hwf Hwn].
+  cbn zeta in Hwf, Hwn. split; [exact Hwf|].
   cbn [ps_cache ps_heap ps_gen ps_sub]. eexists. split; [|exact Hwn].
   rewrite assoc_aset. now rewrite String.eqb_refl.
 Qed.
 
-Lemma ts_increasing_cons last it rest :
-  ts_increasing last (it :: rest) = true ->
-  ts_increasing last [it] = true /\
-  ts_increasing (match it with IUpd n => Some (n_ts n) | ISync => last end) rest = true.
-Proof.
-  destruct it as [|n]; cbn; [auto|]. rewrite andb_true_r. intros H. now apply andb_true_iff in H.
-Qed.
-
-Lemma ingest_all : forall rem st TF last,
-  pinv st TF -> Forall item_good rem -> pf_items TF rem -> bound_opt TF last -> ts_increasing last rem = true ->
+Lemma ingest_all : forall rem st TF,
+  pinv st TF -> Forall item_good rem -> pf_items TF rem ->
   pinv (fold_left (fun st it => ingest st name it) rem st) (fold_left tf_item rem TF).
 Proof.
-  induction rem as [|it rem IH]; intros st TF last Hp Hg Hpf Hb Hts; cbn [fold_left]; [assumption|].
-  inversion Hg as [|? ? Hg1 Hg2]; subst. destruct (ts_increasing_cons _ _ _ Hts) as [Ht1 Ht2].
-  destruct Hpf as [Hpf1 Hpf2].
-  destruct (ingest_own st TF it last Hp Hg1 Hpf1 Hb Ht1) as [Hp' Hb']. eapply IH; eauto.
+  induction rem as [|it rem IH]; intros st TF Hp Hg Hpf; cbn [fold_left]; [assumption|].
+  inversion Hg as [|? ? Hg1 Hg2]; subst. destruct Hpf as [Hpf1 Hpf2].
+  eapply IH; eauto. now apply ingest_own.
 Qed.
 
 Variable cq : cquery.
@@ -1479,19 +1470,13 @@ Qed.
 
 Variable s : list item.                    (* the subscribed target's stream *)
 Hypothesis s_good : Forall item_good s.
-Hypothesis s_ts : ts_increasing None s = true.
 Hypothesis s_pf : pf_items tf0 s.
-
-Definition last_ts (c : list item) : option Z :=
-  fold_left (fun l it => match it with IUpd n => Some (n_ts n) | ISync => l end) c None.
 
 Inductive rinv (rs : run_state) : Prop :=
 | Build_rinv (ri_c ri_rem : list item)
     (ri_split : s = ri_c ++ ri_rem)
     (ri_streams : rn_streams rs = [(name, ri_rem)])
     (ri_pinv : pinv (rn_st rs) (tf_run ri_c))
-    (ri_bound : bound_opt (tf_run ri_c) (last_ts ri_c))
-    (ri_ts : ts_increasing (last_ts ri_c) ri_rem = true)
     (ri_good : Forall item_good ri_rem)
     (ri_pf : pf_items (tf_run ri_c) ri_rem)
     (ri_sub : (rn_subres rs = None /\ ps_sub (rn_st rs) = None)
@@ -1502,7 +1487,7 @@ Proof. destruct o; cbn; split; congruence. Qed.
 
 Lemma do_subscribe_rinv rs : rinv rs -> rinv (do_subscribe rs cq).
 Proof.
-  intros [c rem H1 H2 H3 H4 H5 H6 Hpf H7]. unfold do_subscribe.
+  intros [c rem H1 H2 H3 H6 Hpf H7]. unfold do_subscribe.
   destruct H7 as [[Hr Hs]|[Hr Hs]]; rewrite Hr.
   - destruct (subscribe_pinv _ _ H3 Hs) as (st' & E & Hp & Hne). rewrite E.
     econstructor; cbn [rn_st rn_streams rn_subres]; eauto.
@@ -1512,24 +1497,21 @@ Qed.
 Lemma do_action_rinv rs a : rinv rs -> rinv (do_action cq rs a).
 Proof.
   intros Hrs. destruct a as [n'| |]; cbn [do_action].
-  - destruct Hrs as [c rem H1 H2 H3 H4 H5 H6 Hpf H7]. rewrite H2. cbn [assoc fst snd].
+  - destruct Hrs as [c rem H1 H2 H3 H6 Hpf H7]. rewrite H2. cbn [assoc fst snd].
     destruct (String.eqb_spec n' name) as [->|Hn]; [|econstructor; eauto].
     destruct rem as [|it rest]; [econstructor; eauto|].
-    inversion H6 as [|? ? Hg1 Hg2]; subst. destruct (ts_increasing_cons _ _ _ H5) as [Ht1 Ht2].
-    destruct Hpf as [Hpf1 Hpf2].
-    destruct (ingest_own _ _ it _ H3 Hg1 Hpf1 H4 Ht1) as [Hp' Hb'].
+    inversion H6 as [|? ? Hg1 Hg2]; subst. destruct Hpf as [Hpf1 Hpf2].
+    pose proof (ingest_own _ _ it H3 Hg1 Hpf1) as Hp'.
     apply (Build_rinv _ (c ++ [it]) rest); cbn [rn_st rn_streams rn_subres].
     + now rewrite <- app_assoc.
     + cbn. now rewrite String.eqb_refl.
     + unfold tf_run. rewrite fold_left_app. exact Hp'.
-    + unfold tf_run, last_ts. rewrite !fold_left_app. exact Hb'.
-    + unfold last_ts. rewrite fold_left_app. exact Ht2.
     + assumption.
     + unfold tf_run. rewrite fold_left_app. exact Hpf2.
     + destruct H7 as [[Hr Hs]|[Hr Hs]]; [left|right]; (split; [assumption|]).
       * apply sub_none_iff. rewrite ingest_sub_none. now apply sub_none_iff.
       * intros E. apply sub_none_iff in E. rewrite ingest_sub_none in E. apply sub_none_iff in E. contradiction.
-  - destruct Hrs as [c rem H1 H2 H3 H4 H5 H6 Hpf H7].
+  - destruct Hrs as [c rem H1 H2 H3 H6 Hpf H7].
     econstructor; cbn [rn_st rn_streams rn_subres]; eauto using send_pinv.
     assert (Hsn : sub_none (ps_sub (send_one (rn_st rs))) = sub_none (ps_sub (rn_st rs))).
     { unfold send_one. destruct (ps_sub (rn_st rs)) as [sb|] eqn:Hs; [|now rewrite Hs].
@@ -1562,16 +1544,15 @@ Proof.
     - split; [reflexivity|]. exists None. cbn [initial ps_cache ps_heap ps_gen ps_sub]. split.
       + clear -Hin. induction (keys (cf_targets cfg)) as [|a l IH]; [contradiction|]. cbn.
         destruct (String.eqb_spec name a); [reflexivity|]. destruct Hin; [congruence|auto].
-      + constructor; cbn; auto; try discriminate.
-    - cbn. reflexivity. }
+      + constructor; cbn; auto; try discriminate. }
   assert (Hall : forall acts rs, rinv rs -> rinv (fold_left (do_action cq) acts rs)).
   { induction acts as [|a acts IH]; intros rs Hrs; cbn [fold_left]; [assumption|].
     apply IH. now apply do_action_rinv. }
   specialize (Hall sched rs0 H0). set (rs1 := fold_left (do_action cq) sched rs0) in *.
-  destruct Hall as [c rem H1 H2 H3 H4 H5 H6 Hpf H7].
+  destruct Hall as [c rem H1 H2 H3 H6 Hpf H7].
   (* quiescence *)
   unfold quiesce. rewrite H2. unfold ingest_rest. cbn [fold_left fst snd].
-  pose proof (ingest_all rem _ _ _ H3 H6 Hpf H4 H5) as Hp.
+  pose proof (ingest_all rem _ _ H3 H6 Hpf) as Hp.
   assert (Htf : fold_left tf_item rem (tf_run c) = tf_run s) by (unfold tf_run; now rewrite H1, fold_left_app).
   rewrite Htf in Hp.
   set (st1 := fold_left (fun st it => ingest st name it) rem (rn_st rs1)) in *.
@@ -1588,31 +1569,19 @@ End Relay.
 
 (** * The cache-order replay is the gNMI replay *)
 
-Fixpoint flook (f : tstate) (k : path) : option tv :=
-  match f with
-  | [] => None
-  | (k', v) :: f' => if path_eqb k k' then Some v else flook f' k
-  end.
-
-Lemma flook_filter (f : tstate) (h : path -> bool) k :
-  flook (filter (fun kv => h (fst kv)) f) k = if h k then flook f k else None.
+Lemma tlook_In f k x : NoDup (keys f) -> (tlook f k = Some x <-> In (k, x) f).
 Proof.
-  induction f as [|[k' v] f IH]; cbn; [now destruct (h k)|].
-  destruct (h k') eqn:Hk'; cbn.
-  - destruct (path_eqb_spec k k') as [->|_]; [now rewrite Hk'|apply IH].
-  - rewrite IH. destruct (path_eqb_spec k k') as [->|_]; [now rewrite Hk'|reflexivity].
+  induction f as [|[k' x'] f IH]; cbn; intros Hnd; [split; [discriminate|tauto]|].
+  inversion Hnd as [|? ? Hni Hnd']; subst. destruct (path_eqb_spec k k') as [->|Hn].
+  - split; [intros E; inversion E; now left|]. intros [E|Hin]; [now inversion E|].
+    exfalso. apply Hni. change k' with (fst (k', x)). now apply in_map.
+  - rewrite IH by assumption. split; [now right|]. intros [E|Hin]; [inversion E; congruence|assumption].
 Qed.
 
-Lemma flook_tdel f d k : flook (tdel f d) k = if qmatch d k then None else flook f k.
+Lemma tlook_notin f k : ~ In k (keys f) -> tlook f k = None.
 Proof.
-  unfold tdel. rewrite (flook_filter f (fun k => negb (qmatch d k))). now destruct (qmatch d k).
-Qed.
-
-Lemma flook_tset f k' v k : flook (tset f k' v) k = if path_eqb k k' then Some v else flook f k.
-Proof.
-  unfold tset. cbn. destruct (path_eqb_spec k k') as [->|Hn]; [reflexivity|].
-  rewrite (flook_filter f (fun k0 => negb (path_eqb k0 k'))).
-  destruct (path_eqb_spec k k'); [contradiction|reflexivity].
+  induction f as [|[k' x'] f IH]; cbn; intros Hn; [reflexivity|].
+  destruct (path_eqb_spec k k') as [->|_]; [tauto|]. apply IH. tauto.
 Qed.
 
 Lemma keys_filter_incl {A} (h : path * A -> bool) l x : In x (keys (filter h l)) -> In x (keys l).
@@ -1626,40 +1595,77 @@ Proof.
   destruct (h x); cbn; [|auto]. constructor; [|auto]. intros Hin. apply Hni. eapply keys_filter_incl; eauto.
 Qed.
 
-Lemma NoDup_tset f k v : NoDup (keys f) -> NoDup (keys (tset f k v)).
+(** filtering on a predicate of key and value *)
+Lemma tlook_filter f (h : path * (Z * tv) -> bool) k :
+  NoDup (keys f) ->
+  tlook (filter h f) k = match tlook f k with Some x => if h (k, x) then Some x else None | None => None end.
+Proof.
+  induction f as [|[k' x'] f IH]; cbn; intros Hnd; [reflexivity|].
+  inversion Hnd as [|? ? Hni Hnd']; subst.
+  destruct (path_eqb_spec k k') as [->|Hn].
+  - destruct (h (k', x')) eqn:Hh; cbn; [now rewrite path_eqb_refl|].
+    apply tlook_notin. intros Hin. apply Hni. eapply keys_filter_incl; eauto.
+  - destruct (h (k', x')); cbn; [destruct (path_eqb_spec k k'); [contradiction|]|]; now apply IH.
+Qed.
+
+Lemma NoDup_tset f k ts v : NoDup (keys f) -> NoDup (keys (tset f k ts v)).
 Proof.
   intros Hnd. unfold tset. cbn. constructor; [|now apply NoDup_keys_filter].
   intros Hin. apply in_map_iff in Hin as ([k0 v0] & E & Hy). cbn in E. subst k0.
   apply filter_In in Hy as [_ Hy]. cbn in Hy. now rewrite path_eqb_refl in Hy.
 Qed.
 
+Lemma NoDup_tupd f k ts v : NoDup (keys f) -> NoDup (keys (tupd f k ts v)).
+Proof.
+  intros Hnd. unfold tupd. destruct (tlook f k) as [[t0 v0]|]; [destruct (ts <? t0); [assumption|]|];
+    now apply NoDup_tset.
+Qed.
+
+Lemma tlook_tset f k' ts v k :
+  NoDup (keys f) -> tlook (tset f k' ts v) k = if path_eqb k k' then Some (ts, v) else tlook f k.
+Proof.
+  intros Hnd. unfold tset. cbn. destruct (path_eqb_spec k k') as [->|Hn]; [reflexivity|].
+  rewrite tlook_filter by assumption. destruct (tlook f k) as [x|]; [|reflexivity]. cbn.
+  destruct (path_eqb_spec k k'); [contradiction|reflexivity].
+Qed.
+
+Lemma tlook_tupd f k' ts v k :
+  NoDup (keys f) -> tlook (tupd f k' ts v) k = if path_eqb k k' then newer (tlook f k) ts v else tlook f k.
+Proof.
+  intros Hnd. unfold tupd, newer. destruct (path_eqb_spec k k') as [->|Hn].
+  - destruct (tlook f k') as [[t0 v0]|] eqn:E.
+    + destruct (ts <? t0); [assumption|]. now rewrite tlook_tset, path_eqb_refl.
+    + now rewrite tlook_tset, path_eqb_refl.
+  - destruct (tlook f k') as [[t0 v0]|]; [destruct (ts <? t0); [reflexivity|]|];
+      rewrite tlook_tset by assumption; destruct (path_eqb_spec k k'); congruence.
+Qed.
+
+Lemma tlook_tdel f d ts k :
+  NoDup (keys f) ->
+  tlook (tdel f d ts) k =
+  match tlook f k with Some (t0, v) => if qmatch d k && (t0 <? ts) then None else Some (t0, v) | None => None end.
+Proof.
+  intros Hnd. unfold tdel. rewrite tlook_filter by assumption.
+  destruct (tlook f k) as [[t0 v]|]; [|reflexivity]. cbn. now destruct (qmatch d k && (t0 <? ts)).
+Qed.
+
 Lemma NoDup_replay_step f it : NoDup (keys f) -> NoDup (keys (replay_step f it)).
 Proof.
   destruct it as [|n]; cbn [replay_step]; [auto|]. intros Hnd.
   assert (H1 : forall ds f, NoDup (keys f) ->
-     NoDup (keys (fold_left (fun f d => tdel f (tkey (n_prefix n) d)) ds f))).
+     NoDup (keys (fold_left (fun f d => tdel f (tkey (n_prefix n) d) (n_ts n)) ds f))).
   { induction ds as [|d ds IH]; cbn; intros f0 H0; [assumption|]. apply IH. now apply NoDup_keys_filter. }
   assert (H2 : forall us f, NoDup (keys f) ->
-     NoDup (keys (fold_left (fun f (u : gpath * tv) => tset f (tkey (n_prefix n) (fst u)) (snd u)) us f))).
-  { induction us as [|u us IH]; cbn; intros f0 H0; [assumption|]. apply IH. now apply NoDup_tset. }
+     NoDup (keys (fold_left (fun f (u : gpath * tv) => tupd f (tkey (n_prefix n) (fst u)) (n_ts n) (snd u)) us f))).
+  { induction us as [|u us IH]; cbn; intros f0 H0; [assumption|]. apply IH. now apply NoDup_tupd. }
   apply H2, H1, Hnd.
 Qed.
 
-Lemma NoDup_replay s : NoDup (keys (replay s)).
-Proof.
-  unfold replay. assert (H : forall s f, NoDup (keys f) -> NoDup (keys (fold_left replay_step s f))).
-  { induction s0 as [|it s0 IH]; cbn; intros f Hf; [assumption|]. apply IH. now apply NoDup_replay_step. }
-  apply H. constructor.
-Qed.
+Lemma NoDup_replay_from s : forall f, NoDup (keys f) -> NoDup (keys (fold_left replay_step s f)).
+Proof. induction s as [|it s IH]; cbn; intros f Hf; [assumption|]. apply IH. now apply NoDup_replay_step. Qed.
 
-Lemma flook_In f k v : NoDup (keys f) -> (flook f k = Some v <-> In (k, v) f).
-Proof.
-  induction f as [|[k' v'] f IH]; cbn; intros Hnd; [split; [discriminate|tauto]|].
-  inversion Hnd as [|? ? Hni Hnd']; subst. destruct (path_eqb_spec k k') as [->|Hn].
-  - split; [intros E; inversion E; now left|]. intros [E|Hin]; [now inversion E|].
-    exfalso. apply Hni. change k' with (fst (k', v)). now apply in_map.
-  - rewrite IH by assumption. split; [now right|]. intros [E|Hin]; [inversion E; congruence|assumption].
-Qed.
+Lemma NoDup_replay s : NoDup (keys (replay s)).
+Proof. apply NoDup_replay_from. constructor. Qed.
 
 Section Equiv.
 Variable name : string.
@@ -1684,130 +1690,115 @@ Proof.
   - rewrite (Hp eq_refl). reflexivity.
 Qed.
 
-(** closed forms of the folds *)
-Fixpoint upd_of (pre : option gpath) (us : list (gpath * tv)) (k : path) (dflt : option tv) : option tv :=
-  match us with
-  | [] => dflt
-  | u :: us' => upd_of pre us' k (if path_eqb k (tkey pre (fst u)) then Some (snd u) else dflt)
-  end.
-
-Lemma flook_fold_tset pre : forall us f k,
-  flook (fold_left (fun f (u : gpath * tv) => tset f (tkey pre (fst u)) (snd u)) us f) k =
-  upd_of pre us k (flook f k).
-Proof.
-  induction us as [|u us IH]; intros f k; cbn [fold_left upd_of]; [reflexivity|].
-  now rewrite IH, flook_tset.
-Qed.
-
-Definition any_del (pre : option gpath) (ds : list gpath) (k : path) : bool :=
-  existsb (fun d => qmatch (tkey pre d) k) ds.
-
-Lemma flook_fold_tdel pre : forall ds f k,
-  flook (fold_left (fun f d => tdel f (tkey pre d)) ds f) k =
-  if any_del pre ds k then None else flook f k.
-Proof.
-  induction ds as [|d ds IH]; intros f k; cbn [fold_left any_del existsb]; [reflexivity|].
-  rewrite IH, flook_tdel. fold (any_del pre ds k).
-  destruct (qmatch (tkey pre d) k), (any_del pre ds k); reflexivity.
-Qed.
-
-Fixpoint tupd_of (pre : gpath) (ts : Z) (us : list (gpath * tv)) (k : path) (dflt : option (Z * tv))
+(** closed forms of the folds, pointwise *)
+Fixpoint upd_of (key : gpath -> path) (ts : Z) (us : list (gpath * tv)) (k : path) (o : option (Z * tv))
   : option (Z * tv) :=
   match us with
-  | [] => dflt
-  | u :: us' => tupd_of pre ts us' k (if path_eqb k (skey pre (fst u)) then Some (ts, snd u) else dflt)
+  | [] => o
+  | u :: us' => upd_of key ts us' k (if path_eqb k (key (fst u)) then newer o ts (snd u) else o)
   end.
 
-Lemma tf_updates_closed pre ts : forall us TF k,
-  tf_updates TF pre ts us k = tupd_of pre ts us k (TF k).
+Definition del_of (anyd : bool) (ts : Z) (o : option (Z * tv)) : option (Z * tv) :=
+  match o with
+  | Some (t0, v) => if anyd && (t0 <? ts) then None else Some (t0, v)
+  | None => None
+  end.
+
+Lemma tlook_fold_tupd (key : gpath -> path) ts : forall us f k, NoDup (keys f) ->
+  tlook (fold_left (fun f (u : gpath * tv) => tupd f (key (fst u)) ts (snd u)) us f) k =
+  upd_of key ts us k (tlook f k).
 Proof.
-  induction us as [|u us IH]; intros TF k; cbn [tf_updates fold_left tupd_of]; [reflexivity|].
-  unfold tf_updates in IH. now rewrite IH.
+  induction us as [|u us IH]; intros f k Hnd; cbn [fold_left upd_of]; [reflexivity|].
+  rewrite IH by (now apply NoDup_tupd). now rewrite tlook_tupd.
+Qed.
+
+Lemma tlook_fold_tdel (key : gpath -> path) ts : forall ds f k, NoDup (keys f) ->
+  tlook (fold_left (fun f d => tdel f (key d) ts) ds f) k =
+  del_of (existsb (fun d => qmatch (key d) k) ds) ts (tlook f k).
+Proof.
+  induction ds as [|d ds IH]; intros f k Hnd; cbn [fold_left existsb].
+  - unfold del_of. destruct (tlook f k) as [[t0 v]|]; reflexivity.
+  - rewrite IH by (now apply NoDup_keys_filter). rewrite tlook_tdel by assumption. unfold del_of.
+    destruct (tlook f k) as [[t0 v]|]; [|reflexivity].
+    destruct (qmatch (key d) k); destruct (t0 <? ts) eqn:E; cbn [andb orb]; rewrite ?E;
+      destruct (existsb (fun d0 => qmatch (key d0) k) ds); reflexivity.
+Qed.
+
+Lemma tf_updates_closed pre ts : forall us TF k,
+  tf_updates TF pre ts us k = upd_of (skey pre) ts us k (TF k).
+Proof.
+  induction us as [|u us IH]; intros TF k; cbn [tf_updates fold_left upd_of]; [reflexivity|].
+  unfold tf_updates in IH. rewrite IH. unfold tfupd. reflexivity.
 Qed.
 
 Lemma tf_deletes_closed pre ts : forall ds TF k,
-  tf_deletes TF pre ts ds k =
-  match TF k with
-  | Some (t0, v) => if existsb (fun d => qmatch (skey pre d) k) ds && (t0 <? ts) then None else Some (t0, v)
-  | None => None
-  end.
+  tf_deletes TF pre ts ds k = del_of (existsb (fun d => qmatch (skey pre d) k) ds) ts (TF k).
 Proof.
   induction ds as [|d ds IH]; intros TF k; cbn [tf_deletes fold_left existsb].
-  - destruct (TF k) as [[t0 v]|]; reflexivity.
-  - unfold tf_deletes in IH. rewrite IH. unfold tfdel. destruct (TF k) as [[t0 v]|]; [|reflexivity].
+  - unfold del_of. destruct (TF k) as [[t0 v]|]; reflexivity.
+  - unfold tf_deletes in IH. rewrite IH. unfold tfdel, del_of. destruct (TF k) as [[t0 v]|]; [|reflexivity].
     destruct (qmatch (skey pre d) k); destruct (t0 <? ts) eqn:E; cbn [andb orb]; rewrite ?E;
       destruct (existsb (fun d0 => qmatch (skey pre d0) k) ds); reflexivity.
 Qed.
 
-Lemma item_equiv TF F n :
-  (forall k, option_map snd (TF k) = flook F k) ->
-  (forall k t0 v, TF k = Some (t0, v) -> t0 < n_ts n) ->
-  no_porigin (IUpd n) ->
-  forall k, option_map snd (tf_item name TF (IUpd n) k) = flook (replay_step F (IUpd n)) k.
+(** deleting what is older and then applying an update, or the other way round *)
+Lemma del_newer anyd ts o v : del_of anyd ts (newer o ts v) = newer (del_of anyd ts o) ts v.
 Proof.
-  intros HR Hb Hno k. cbn [tf_item replay_step]. rewrite flook_fold_tset, flook_fold_tdel.
-  rewrite tf_deletes_closed, tf_updates_closed.
-  assert (Hku : forall u, In u (n_updates n) -> skey (spre name n) (fst u) = tkey (n_prefix n) (fst u)).
-  { intros u Hu. apply skey_tkey. intros E. now apply (proj1 (Hno E)). }
-  assert (Hkd : existsb (fun d => qmatch (skey (spre name n) d) k) (n_deletes n) = any_del (n_prefix n) (n_deletes n) k).
-  { unfold any_del. assert (Hd : forall d, In d (n_deletes n) -> skey (spre name n) d = tkey (n_prefix n) d).
+  unfold del_of, newer. destruct o as [[t0 v0]|].
+  - destruct (ts <? t0) eqn:E1.
+    + assert (E2 : (t0 <? ts) = false) by (apply Z.ltb_ge; apply Z.ltb_lt in E1; lia).
+      rewrite E2, andb_false_r. now rewrite E1.
+    + rewrite Z.ltb_irrefl, andb_false_r. destruct (anyd && (t0 <? ts)); [reflexivity|now rewrite E1].
+  - now rewrite Z.ltb_irrefl, andb_false_r.
+Qed.
+
+Lemma del_upd_of (key : gpath -> path) anyd ts : forall us k o,
+  del_of anyd ts (upd_of key ts us k o) = upd_of key ts us k (del_of anyd ts o).
+Proof.
+  induction us as [|u us IH]; intros k o; cbn [upd_of]; [reflexivity|]. rewrite IH.
+  destruct (path_eqb k (key (fst u))); [now rewrite del_newer|reflexivity].
+Qed.
+
+Lemma upd_of_ext (key1 key2 : gpath -> path) ts : forall us k o,
+  (forall u, In u us -> key1 (fst u) = key2 (fst u)) -> upd_of key1 ts us k o = upd_of key2 ts us k o.
+Proof.
+  induction us as [|u us IH]; intros k o He; cbn [upd_of]; [reflexivity|].
+  rewrite (He u (or_introl eq_refl)). apply IH. intros; apply He; now right.
+Qed.
+
+Lemma item_equiv TF F n :
+  NoDup (keys F) -> (forall k, TF k = tlook F k) -> no_porigin (IUpd n) ->
+  forall k, tf_item name TF (IUpd n) k = tlook (replay_step F (IUpd n)) k.
+Proof.
+  intros Hnd HR Hno k. cbn [tf_item replay_step].
+  rewrite tlook_fold_tupd.
+  2:{ clear -Hnd. revert F Hnd. induction (n_deletes n) as [|d ds IH]; cbn; intros F Hnd; [assumption|].
+      apply IH. now apply NoDup_keys_filter. }
+  rewrite tlook_fold_tdel by assumption.
+  rewrite tf_deletes_closed, tf_updates_closed, del_upd_of, HR.
+  assert (Hkd : existsb (fun d => qmatch (skey (spre name n) d) k) (n_deletes n)
+                = existsb (fun d => qmatch (tkey (n_prefix n) d) k) (n_deletes n)).
+  { assert (Hd : forall d, In d (n_deletes n) -> skey (spre name n) d = tkey (n_prefix n) d).
     { intros d Hd. apply skey_tkey. intros E. now apply (proj2 (Hno E)). }
     induction (n_deletes n) as [|d ds IH]; cbn [existsb]; [reflexivity|].
     rewrite Hd by now left. rewrite IH; [reflexivity|]. intros; apply Hd; now right. }
-  rewrite Hkd. set (anyD := any_del (n_prefix n) (n_deletes n) k).
-  (* joint induction over the updates *)
-  assert (J : forall us a b,
-     (forall u, In u us -> skey (spre name n) (fst u) = tkey (n_prefix n) (fst u)) ->
-     ((exists v, a = Some (n_ts n, v) /\ b = Some v)
-      \/ (exists t0 v, a = Some (t0, v) /\ t0 < n_ts n /\ b = if anyD then None else Some v)
-      \/ (a = None /\ b = None)) ->
-     option_map snd (match tupd_of (spre name n) (n_ts n) us k a with
-                     | Some (t0, v) => if anyD && (t0 <? n_ts n) then None else Some (t0, v)
-                     | None => None
-                     end) = upd_of (n_prefix n) us k b).
-  { induction us as [|u us IH]; intros a b Hk Hrel; cbn [tupd_of upd_of].
-    - destruct Hrel as [(v & -> & ->)|[(t0 & v & -> & Hlt & ->)|[-> ->]]].
-      + rewrite Z.ltb_irrefl, andb_false_r. reflexivity.
-      + apply Z.ltb_lt in Hlt. rewrite Hlt, andb_true_r. now destruct anyD.
-      + reflexivity.
-    - apply IH; [intros; apply Hk; now right|]. rewrite (Hk u (or_introl eq_refl)).
-      destruct (path_eqb k (tkey (n_prefix n) (fst u))); [left; eauto|assumption]. }
-  apply J; [assumption|]. specialize (HR k). destruct (TF k) as [[t0 v]|] eqn:E; cbn in HR.
-  - right. left. exists t0, v. split; [reflexivity|]. split; [eapply Hb; eauto|]. now rewrite <- HR.
-  - right. right. split; [reflexivity|]. now rewrite <- HR; destruct anyD.
+  rewrite Hkd. apply upd_of_ext. intros u Hu. apply skey_tkey. intros E. now apply (proj1 (Hno E)).
 Qed.
 
-Lemma run_equiv : forall rem c F last,
-  (forall k, option_map snd (tf_run name c k) = flook F k) ->
-  (match last with Some t => forall k t0 v, tf_run name c k = Some (t0, v) -> t0 <= t
-                 | None => forall k, tf_run name c k = None end) ->
-  ts_increasing last rem = true -> Forall no_porigin rem ->
-  forall k, option_map snd (tf_run name (c ++ rem) k) = flook (fold_left replay_step rem F) k.
+Lemma run_equiv : forall rem c F,
+  NoDup (keys F) -> (forall k, tf_run name c k = tlook F k) -> Forall no_porigin rem ->
+  forall k, tf_run name (c ++ rem) k = tlook (fold_left replay_step rem F) k.
 Proof.
-  induction rem as [|it rem IH]; intros c F last HR Hb Hts Hno k; cbn [fold_left].
+  induction rem as [|it rem IH]; intros c F Hnd HR Hno k; cbn [fold_left].
   - now rewrite app_nil_r.
   - change (c ++ it :: rem) with (c ++ [it] ++ rem). rewrite app_assoc.
-    inversion Hno as [|? ? Hn1 Hn2]; subst.
-    destruct it as [|n].
-    + apply (IH (c ++ [ISync]) F last); auto; unfold tf_run in *; rewrite fold_left_app; cbn; auto.
-    + cbn in Hts. apply andb_true_iff in Hts as [Hlt Hts].
-      assert (Hb' : forall k t0 v, tf_run name c k = Some (t0, v) -> t0 < n_ts n).
-      { intros k0 t0 v E. destruct last as [t|].
-        - apply Z.ltb_lt in Hlt. specialize (Hb _ _ _ E). lia.
-        - now rewrite Hb in E. }
-      apply (IH (c ++ [IUpd n]) (replay_step F (IUpd n)) (Some (n_ts n))); auto.
-      * intros k0. unfold tf_run. rewrite fold_left_app. cbn [fold_left]. now apply item_equiv.
-      * intros k0 t0 v. unfold tf_run. rewrite fold_left_app. cbn [fold_left tf_item].
-        rewrite tf_deletes_closed. fold (tf_run name c).
-        destruct (tf_updates (tf_run name c) (spre name n) (n_ts n) (n_updates n) k0) as [[t1 v1]|] eqn:E; [|discriminate].
-        destruct (_ && _); [discriminate|]. intros E'; inversion E'; subst.
-        rewrite tf_updates_closed in E. clear -E Hb'.
-        assert (G : forall us a, (forall t0 v, a = Some (t0, v) -> t0 <= n_ts n) ->
-                  tupd_of (spre name n) (n_ts n) us k0 a = Some (t0, v) -> t0 <= n_ts n).
-        { induction us as [|u us IH]; cbn; intros a Ha; [apply Ha|]. apply IH.
-          intros t2 v2. destruct (path_eqb k0 _); [intros X; inversion X; lia|apply Ha]. }
-        eapply G; [|exact E]. intros t2 v2 X. apply Hb' in X. lia.
+    apply Forall_cons_iff in Hno as [Hn1 Hn2].
+    apply (IH (c ++ [it]) (replay_step F it)); auto.
+    + now apply NoDup_replay_step.
+    + intros k0. unfold tf_run. rewrite fold_left_app. cbn [fold_left]. fold (tf_run name c).
+      destruct it as [|n]; [apply HR|]. now apply item_equiv.
 Qed.
+
 (** the executable check of PipelineCheck ([prefix_free_from]) implies the
     instant-level prefix-freeness the relay proof uses *)
 Lemma pf_upds_of_check n : forall us TF f,
@@ -1825,49 +1816,30 @@ Proof.
                                      || strict_prefix (tkey (n_prefix n) (fst u)) (fst kv)) f = true); [|congruence].
     apply existsb_exists. specialize (Hdom _ Hk'). apply in_map_iff in Hdom as ([k0 v0] & E0 & Hin). cbn in E0. subst k0.
     exists (k', v0). split; [assumption|exact E].
-  - apply (IH _ ((tkey (n_prefix n) (fst u), TVBool true) :: f)); [|intros; apply Hk; now right|exact Hpf].
-    intros k0. unfold tfset. destruct (path_eqb_spec k0 (tkey (n_prefix n) (fst u))) as [->|_]; [intros _; now left|].
+  - apply (IH _ ((tkey (n_prefix n) (fst u), (0, TVBool true)) :: f)); [|intros; apply Hk; now right|exact Hpf].
+    intros k0. unfold tfupd. destruct (path_eqb_spec k0 (tkey (n_prefix n) (fst u))) as [->|_]; [intros _; now left|].
     intros H0. right. now apply Hdom.
 Qed.
 
-Lemma pf_items_of_check : forall rem c F last,
-  (forall k, option_map snd (tf_run name c k) = flook F k) ->
-  (match last with Some t => forall k t0 v, tf_run name c k = Some (t0, v) -> t0 <= t
-                 | None => forall k, tf_run name c k = None end) ->
-  ts_increasing last rem = true -> Forall no_porigin rem ->
+Lemma pf_items_of_check : forall rem c F,
+  NoDup (keys F) -> (forall k, tf_run name c k = tlook F k) -> Forall no_porigin rem ->
   prefix_free_from F rem = true ->
   pf_items name (tf_run name c) rem.
 Proof.
-  induction rem as [|it rem IH]; intros c F last HR Hb Hts Hno Hpf; cbn [pf_items]; [exact I|].
+  induction rem as [|it rem IH]; intros c F Hnd HR Hno Hpf; cbn [pf_items]; [exact I|].
   apply Forall_cons_iff in Hno as [Hn1 Hn2]. cbn [prefix_free_from] in Hpf.
   apply andb_true_iff in Hpf as [Hpf1 Hpf2].
   assert (Hdom : forall k, tf_run name c k <> None -> In k (keys F)).
-  { intros k Hk. specialize (HR k). destruct (tf_run name c k) as [[t0 v]|]; [|congruence]. cbn in HR.
-    symmetry in HR. clear -HR. induction F as [|[k' v'] F IH]; cbn in *; [discriminate|].
-    destruct (path_eqb_spec k k'); [now left|right; auto]. }
+  { intros k Hk. rewrite HR in Hk. destruct (tlook F k) as [x|] eqn:E; [|congruence].
+    apply (tlook_In _ _ _ Hnd) in E. change k with (fst (k, x)). now apply in_map. }
   assert (Hstep : tf_item name (tf_run name c) it = tf_run name (c ++ [it]))
     by (unfold tf_run; now rewrite fold_left_app).
-  rewrite Hstep. destruct it as [|n].
-  - split; [exact I|]. apply (IH (c ++ [ISync]) F last); auto; unfold tf_run in *; rewrite fold_left_app; cbn; auto.
-  - cbn in Hts. apply andb_true_iff in Hts as [Hlt Hts]. split.
-    + cbn [pf_item]. apply (pf_upds_of_check n _ _ F Hdom); [|exact Hpf1].
-      intros u Hu. apply skey_tkey. intros E. now apply (proj1 (Hn1 E)).
-    + assert (Hb' : forall k t0 v, tf_run name c k = Some (t0, v) -> t0 < n_ts n).
-      { intros k0 t0 v E. destruct last as [t|].
-        - apply Z.ltb_lt in Hlt. specialize (Hb _ _ _ E). lia.
-        - now rewrite Hb in E. }
-      apply (IH (c ++ [IUpd n]) (replay_step F (IUpd n)) (Some (n_ts n))); auto.
-      * intros k0. unfold tf_run. rewrite fold_left_app. cbn [fold_left]. now apply item_equiv.
-      * intros k0 t0 v. unfold tf_run. rewrite fold_left_app. cbn [fold_left tf_item].
-        rewrite tf_deletes_closed. fold (tf_run name c).
-        destruct (tf_updates (tf_run name c) (spre name n) (n_ts n) (n_updates n) k0) as [[t1 v1]|] eqn:E; [|discriminate].
-        destruct (_ && _); [discriminate|]. intros E'; inversion E'; subst.
-        rewrite tf_updates_closed in E. clear -E Hb'.
-        assert (G : forall us a, (forall t0 v, a = Some (t0, v) -> t0 <= n_ts n) ->
-                  tupd_of (spre name n) (n_ts n) us k0 a = Some (t0, v) -> t0 <= n_ts n).
-        { induction us as [|u us IH]; cbn; intros a Ha; [apply Ha|]. apply IH.
-          intros t2 v2. destruct (path_eqb k0 _); [intros X; inversion X; lia|apply Ha]. }
-        eapply G; [|exact E]. intros t2 v2 X. apply Hb' in X. lia.
+  rewrite Hstep. split.
+  - destruct it as [|n]; [exact I|]. cbn [pf_item]. apply (pf_upds_of_check n _ _ F Hdom); [|exact Hpf1].
+    intros u Hu. apply skey_tkey. intros E. now apply (proj1 (Hn1 E)).
+  - apply (IH (c ++ [it]) (replay_step F it)); auto.
+    + now apply NoDup_replay_step.
+    + intros k0. rewrite <- Hstep. destruct it as [|n]; [apply HR|]. now apply item_equiv.
 Qed.
 End Equiv.
 
@@ -1880,21 +1852,43 @@ Proof.
 Qed.
 
 Lemma in_stamp_paths name f p sc :
-  In (p, sc) (stamp_paths name f) <-> exists k v, In (k, v) f /\ to_scalar v = Some sc /\ p = name :: k.
+  In (p, sc) (stamp_paths name f) <->
+  exists k t v, In (k, (t, v)) f /\ to_scalar v = Some sc /\ p = name :: k.
 Proof.
   unfold stamp_paths. rewrite in_flat_map. split.
-  - intros ([k v] & Hin & Hx). cbn in Hx. destruct (to_scalar v) as [s0|] eqn:E; [|contradiction].
-    destruct Hx as [Hx|[]]. inversion Hx; subst. eauto.
-  - intros (k & v & Hin & Hs & ->). exists (k, v). split; [assumption|]. cbn. rewrite Hs. now left.
+  - intros ([k [t v]] & Hin & Hx). cbn in Hx. destruct (to_scalar v) as [s0|] eqn:E; [|contradiction].
+    destruct Hx as [Hx|[]]. inversion Hx; subst. eauto 6.
+  - intros (k & t & v & Hin & Hs & ->). exists (k, (t, v)). split; [assumption|]. cbn. rewrite Hs. now left.
 Qed.
 
 Lemma NoDup_stamp_paths name f : NoDup (keys f) -> NoDup (keys (stamp_paths name f)).
 Proof.
-  induction f as [|[k v] f IH]; cbn; intros H; [constructor|]. inversion H as [|? ? Hni Hnd]; subst.
+  induction f as [|[k [t v]] f IH]; cbn; intros H; [constructor|]. inversion H as [|? ? Hni Hnd]; subst.
   destruct (to_scalar v) as [s0|]; cbn; [|auto]. constructor; [|auto].
   intros Hin. apply in_map_iff in Hin as ([p sc] & E & Hp). cbn in E. subst p.
-  apply in_stamp_paths in Hp as (k' & v' & Hin' & _ & E). inversion E; subst k'.
-  apply Hni. change k with (fst (k, v')). now apply in_map.
+  apply in_stamp_paths in Hp as (k' & t' & v' & Hin' & _ & E). inversion E; subst k'.
+  apply Hni. change k with (fst (k, (t', v'))). now apply in_map.
+Qed.
+
+(** from the cache-order characterisation to the gNMI replay *)
+Lemma leaves_of_tf name Q s l :
+  Forall no_porigin s -> NoDup (keys l) ->
+  (forall p sc, In (p, sc) l <->
+     exists k, p = name :: k /\ is_prefix Q (name :: k) = true /\ decode (tf_run name s k) = Some sc) ->
+  Permutation l (selects Q (stamp_paths name (replay s))).
+Proof.
+  intros Hno Hnd Hl. pose proof (NoDup_replay s) as HndF.
+  assert (Heq : forall k, tf_run name s k = tlook (replay s) k).
+  { intros k. apply (run_equiv name s [] []); auto. constructor. }
+  apply NoDup_Permutation.
+  - now apply NoDup_of_keys.
+  - apply NoDup_of_keys. unfold selects. apply NoDup_keys_filter. now apply NoDup_stamp_paths.
+  - intros [p sc]. rewrite Hl. unfold selects. rewrite filter_In. cbn [fst]. rewrite in_stamp_paths. split.
+    + intros (k & -> & Hu & Hd). split; [|exact Hu]. rewrite Heq in Hd.
+      destruct (tlook (replay s) k) as [[t0 v]|] eqn:E; [|discriminate]. cbn in Hd.
+      exists k, t0, v. split; [apply tlook_In; auto|auto].
+    + intros [(k & t & v & Hkv & Hs & ->) Hu]. exists k. split; [reflexivity|]. split; [exact Hu|].
+      apply (tlook_In _ _ _ HndF) in Hkv. now rewrite Heq, Hkv.
 Qed.
 
 Theorem relay_single (name : string) (Keys : path -> Prop) (Vals : tv -> Prop) (Q Qr : path)
@@ -1907,31 +1901,18 @@ Theorem relay_single (name : string) (Keys : path -> Prop) (Vals : tv -> Prop) (
   name <> "" ->
   sub_query cq = Q -> g_target (cq_prefix cq) = name ->
   complete_path (cq_prefix cq) (cq_path cq) = Some Qr ->
-  Forall (item_good name Keys Vals) s -> Forall no_porigin s -> ts_increasing None s = true ->
+  Forall (item_good name Keys Vals) s -> Forall no_porigin s ->
   prefix_free_from [] s = true ->
   validate cfg = true -> In name (keys (cf_targets cfg)) ->
   exists l, pipeline cfg [(name, s)] cq sched = VLeaves l /\
             Permutation l (selects Q (stamp_paths name (replay s))).
 Proof.
-  intros K2 V1 V2 HQ HQg HQa Hne Hq Ht Hc Hgood Hno Hts Hpfc Hv Hin.
+  intros K2 V1 V2 HQ HQg HQa Hne Hq Ht Hc Hgood Hno Hpfc Hv Hin.
   assert (Hpf : pf_items name tf0 s).
-  { apply (pf_items_of_check name s [] [] None); auto. }
-  destruct (relay_tf name Keys Vals Q Qr K2 V1 V2 HQ HQg HQa Hne cq Hq Ht Hc s Hgood Hts Hpf cfg sched Hv Hin)
+  { apply (pf_items_of_check name s [] []); auto. constructor. }
+  destruct (relay_tf name Keys Vals Q Qr K2 V1 V2 HQ HQg HQa Hne cq Hq Ht Hc s Hgood Hpf cfg sched Hv Hin)
     as (l & Hp & Hnd & Hl).
-  exists l. split; [assumption|].
-  pose proof (NoDup_replay s) as HndF.
-  assert (Heq : forall k, option_map snd (tf_run name s k) = flook (replay s) k).
-  { intros k. apply (run_equiv name s [] [] None); auto. }
-  apply NoDup_Permutation.
-  - now apply NoDup_of_keys.
-  - apply NoDup_of_keys. unfold selects. apply NoDup_keys_filter. now apply NoDup_stamp_paths.
-  - intros [p sc]. rewrite Hl. unfold selects. rewrite filter_In. cbn [fst]. rewrite in_stamp_paths. split.
-    + intros (k & -> & Hu & Hd). split; [|exact Hu]. specialize (Heq k).
-      destruct (tf_run name s k) as [[t0 v]|]; [|discriminate]. cbn in Heq, Hd.
-      exists k, v. split; [apply flook_In; auto|auto].
-    + intros [(k & v & Hkv & Hs & ->) Hu]. exists k. split; [reflexivity|]. split; [exact Hu|].
-      apply (flook_In _ _ _ HndF) in Hkv. specialize (Heq k). rewrite Hkv in Heq.
-      destruct (tf_run name s k) as [[t0 v0]|]; [|discriminate]. cbn in Heq. inversion Heq; subst. exact Hs.
+  exists l. split; [assumption|]. now apply (leaves_of_tf name Q s l).
 Qed.
 
 (** * Several targets: what one target's messages do to the others *)
@@ -2262,7 +2243,6 @@ Qed.
 
 Variable s : list item.
 Hypothesis s_good : Forall (item_good name Keys Vals) s.
-Hypothesis s_ts : ts_increasing None s = true.
 Hypothesis s_pf : pf_items name tf0 s.
 
 Definition streams_ok (ss : streams) : Prop :=
@@ -2276,8 +2256,6 @@ Inductive minv (rs : run_state) : Prop :=
     (m_ok : streams_ok (rn_streams rs))
     (m_pinv : pinv' (rn_st rs) (tf_run name c))
     (m_ginv : ginv (rn_st rs))
-    (m_bound : bound_opt (tf_run name c) (last_ts c))
-    (m_ts : ts_increasing (last_ts c) rem = true)
     (m_good : Forall (item_good name Keys Vals) rem)
     (m_pf : pf_items name (tf_run name c) rem)
     (m_sub : (rn_subres rs = None /\ ps_sub (rn_st rs) = None)
@@ -2304,17 +2282,16 @@ Qed.
 
 Lemma do_action_minv rs a : minv rs -> minv (do_action cq rs a).
 Proof.
-  intros [c rem H1 H2 Hnd Hok H3 Hg H4 H5 H6 Hpf H7]. destruct a as [n'| |]; cbn [do_action].
+  intros [c rem H1 H2 Hnd Hok H3 Hg H6 Hpf H7]. destruct a as [n'| |]; cbn [do_action].
   - destruct (assoc n' (rn_streams rs)) as [[|it rest]|] eqn:Ea; try (econstructor; eauto; fail).
     assert (Hnm : item_nometa n' it).
     { apply assoc_In in Ea. specialize (Hok _ _ Ea). now apply Forall_cons_iff in Hok as [Hok _]. }
     destruct (ingest_ginv _ n' it Hg Hnm) as (Hg' & _).
     destruct (String.eqb_spec n' name) as [->|Hn].
     + rewrite H2 in Ea. inversion Ea; subst rem.
-      apply Forall_cons_iff in H6 as [Hg1 Hg2]. destruct (ts_increasing_cons _ _ _ H5) as [Ht1 Ht2].
-      destruct Hpf as [Hpf1 Hpf2].
-      edestruct (ingest_own name Keys Vals Q Qr) with (st := rn_st rs) (TF := tf_run name c) (it := it)
-        (last := last_ts c) as [Hp' Hb']; eauto.
+      apply Forall_cons_iff in H6 as [Hg1 Hg2]. destruct Hpf as [Hpf1 Hpf2].
+      assert (Hp' : pinv' (ingest (rn_st rs) name it) (tf_item name (tf_run name c) it))
+        by (eapply ingest_own; eauto).
       apply (Build_minv _ (c ++ [it]) rest); cbn [rn_st rn_streams rn_subres].
       * now rewrite <- app_assoc.
       * rewrite assoc_aset. now rewrite String.eqb_refl.
@@ -2322,8 +2299,6 @@ Proof.
       * eapply streams_ok_aset; eauto.
       * unfold tf_run. rewrite fold_left_app. exact Hp'.
       * assumption.
-      * unfold tf_run, last_ts. rewrite !fold_left_app. exact Hb'.
-      * unfold last_ts. rewrite fold_left_app. exact Ht2.
       * assumption.
       * unfold tf_run. rewrite fold_left_app. exact Hpf2.
       * now apply sub_consistent_ingest.
@@ -2351,11 +2326,11 @@ Proof.
 Qed.
 
 (** everything still in flight reaches the collector *)
-Lemma ingest_rest_minv : forall l st TF last rem,
+Lemma ingest_rest_minv : forall l st TF rem,
   NoDup (keys l) -> streams_ok l ->
-  pinv' st TF -> ginv st -> (rem = [] \/ bound_opt TF last) ->
+  pinv' st TF -> ginv st ->
   (match assoc name l with Some r => r = rem | None => rem = [] end) ->
-  ts_increasing last rem = true -> Forall (item_good name Keys Vals) rem -> pf_items name TF rem ->
+  Forall (item_good name Keys Vals) rem -> pf_items name TF rem ->
   pinv' (ingest_rest st l) (fold_left (tf_item name) rem TF) /\
   sub_none (ps_sub (ingest_rest st l)) = sub_none (ps_sub st).
 Proof.
@@ -2369,41 +2344,33 @@ Proof.
     destruct (IH (ingest st n' it) TF Hn Ho2 (ingest_other_pinv _ _ _ _ Hn Hg Hp Ho1)
                  (proj1 (ingest_ginv _ _ _ Hg Ho1))) as (A & B & C).
     split; [assumption|]. split; [assumption|]. now rewrite C, ingest_sub_none. }
-  assert (Hown : forall its st TF last, Forall (item_good name Keys Vals) its -> pf_items name TF its ->
-            pinv' st TF -> ginv st -> bound_opt TF last -> ts_increasing last its = true ->
+  assert (Hown : forall its st TF, Forall (item_good name Keys Vals) its -> pf_items name TF its ->
+            pinv' st TF -> ginv st ->
             pinv' (fold_left (fun st it => ingest st name it) its st) (fold_left (tf_item name) its TF) /\
             ginv (fold_left (fun st it => ingest st name it) its st) /\
             sub_none (ps_sub (fold_left (fun st it => ingest st name it) its st)) = sub_none (ps_sub st)).
-  { induction its as [|it its IH]; intros st TF last Hgood Hpfi Hp Hg Hb Hts; cbn [fold_left]; [auto|].
-    apply Forall_cons_iff in Hgood as [Hg1 Hg2]. destruct (ts_increasing_cons _ _ _ Hts) as [Ht1 Ht2].
-    destruct Hpfi as [Hpf1 Hpf2].
-    edestruct (ingest_own name Keys Vals Q Qr) with (st := st) (TF := TF) (it := it) (last := last)
-      as [Hp' Hb']; eauto.
-    destruct (IH _ _ _ Hg2 Hpf2 Hp' (proj1 (ingest_ginv _ _ _ Hg (item_good_nometa _ Hg1))) Hb' Ht2) as (A & B & C).
+  { induction its as [|it its IH]; intros st TF Hgood Hpfi Hp Hg; cbn [fold_left]; [auto|].
+    apply Forall_cons_iff in Hgood as [Hg1 Hg2]. destruct Hpfi as [Hpf1 Hpf2].
+    assert (Hp' : pinv' (ingest st name it) (tf_item name TF it)) by (eapply ingest_own; eauto).
+    destruct (IH _ _ Hg2 Hpf2 Hp' (proj1 (ingest_ginv _ _ _ Hg (item_good_nometa _ Hg1)))) as (A & B & C).
     split; [assumption|]. split; [assumption|]. now rewrite C, ingest_sub_none. }
-  induction l as [|[n' its] l IH]; intros st TF last rem Hnd Hok Hp Hg Hb Hrem Hts Hgood Hpfr;
+  induction l as [|[n' its] l IH]; intros st TF rem Hnd Hok Hp Hg Hrem Hgood Hpfr;
     unfold ingest_rest in *; cbn [fold_left fst snd].
   - cbn in Hrem. subst rem. cbn. auto.
   - apply NoDup_cons_iff in Hnd as [Hni Hnd']. cbn [assoc fst snd] in Hrem.
     assert (Hok' : streams_ok l) by (intros n2 l2 Hin; apply Hok; now right).
     assert (Hits : Forall (item_nometa n') its) by (apply Hok; now left).
     destruct (String.eqb_spec name n') as [<-|Hn].
-    + subst its.
-      assert (Hrun : pinv' (fold_left (fun st it => ingest st name it) rem st) (fold_left (tf_item name) rem TF) /\
-                     ginv (fold_left (fun st it => ingest st name it) rem st) /\
-                     sub_none (ps_sub (fold_left (fun st it => ingest st name it) rem st)) = sub_none (ps_sub st)).
-      { destruct Hb as [->|Hb]; [cbn; auto|]. exact (Hown rem st TF last Hgood Hpfr Hp Hg Hb Hts). }
-      destruct Hrun as (A & B & C).
+    + subst its. destruct (Hown rem st TF Hgood Hpfr Hp Hg) as (A & B & C).
       assert (Hnone : assoc name l = None) by (apply assoc_None; exact Hni).
-      destruct (IH _ _ None [] Hnd' Hok' A B (or_introl eq_refl)) as (A' & C'); auto.
+      destruct (IH _ _ [] Hnd' Hok' A B) as (A' & C'); auto.
       * now rewrite Hnone.
       * exact I.
       * cbn in A'. split; [assumption|]. now rewrite C', C.
     + destruct (Hothers n' its st TF (not_eq_sym Hn) Hits Hp Hg) as (A & B & C).
-      destruct (IH _ _ last rem Hnd' Hok' A B Hb Hrem Hts Hgood Hpfr) as (A' & C').
+      destruct (IH _ _ rem Hnd' Hok' A B Hrem Hgood Hpfr) as (A' & C').
       split; [assumption|]. now rewrite C', C.
 Qed.
-
 
 Lemma assoc_filter_keys {A} (h : string -> bool) (l : list (string * A)) n :
   assoc n (filter (fun ns => h (fst ns)) l) = if h n then assoc n l else None.
@@ -2466,16 +2433,14 @@ Proof.
         destruct (existsb (String.eqb n) (keys (cf_targets cfg))); [|discriminate].
         intros E. injection E as <-. split; [exact I|].
         intros k g. cbn. discriminate.
-      + intros g r. cbn. discriminate.
-    - cbn. reflexivity. }
+      + intros g r. cbn. discriminate. }
   assert (Hall : forall acts rs, minv rs -> minv (fold_left (do_action cq) acts rs)).
   { induction acts as [|a acts IH]; intros rs Hrs; cbn [fold_left]; [assumption|].
     apply IH. now apply do_action_minv. }
   specialize (Hall sched rs0 H0). set (rs1 := fold_left (do_action cq) sched rs0) in *.
-  destruct Hall as [c rem H1 H2 Hnd Hok1 H3 Hg H4 H5 H6 Hpf H7].
+  destruct Hall as [c rem H1 H2 Hnd Hok1 H3 Hg H6 Hpf H7].
   unfold quiesce.
-  destruct (ingest_rest_minv (rn_streams rs1) (rn_st rs1) (tf_run name c) (last_ts c) rem Hnd Hok1 H3 Hg
-              (or_intror H4)) as (Hp & Hsn); auto.
+  destruct (ingest_rest_minv (rn_streams rs1) (rn_st rs1) (tf_run name c) rem Hnd Hok1 H3 Hg) as (Hp & Hsn); auto.
   { now rewrite H2. }
   assert (Htf : fold_left (tf_item name) rem (tf_run name c) = tf_run name s)
     by (unfold tf_run; now rewrite H1, fold_left_app).
@@ -2492,8 +2457,7 @@ End Multi.
 
 (** the stream conforms to a schema [Keys] and a value set [Vals] *)
 Definition conforms (name : string) (Keys : path -> Prop) (Vals : tv -> Prop) (s : list item) : Prop :=
-  Forall (item_good name Keys Vals) s /\ Forall no_porigin s /\ ts_increasing None s = true
-  /\ prefix_free_from [] s = true.
+  Forall (item_good name Keys Vals) s /\ Forall no_porigin s /\ prefix_free_from [] s = true.
 
 Theorem relay_multi (name : string) (Keys : path -> Prop) (Vals : tv -> Prop) (Q Qr : path)
     (cq : cquery) (s : list item) (cfg : config) (ss : streams) (sched : list action) :
@@ -2513,27 +2477,14 @@ Theorem relay_multi (name : string) (Keys : path -> Prop) (Vals : tv -> Prop) (Q
   exists l, pipeline cfg ss cq sched = VLeaves l /\
             Permutation l (selects Q (stamp_paths name (replay s))).
 Proof.
-  intros K2 V1 V2 HQ HQg HQa Hq Ht Hc (Hgood & Hno & Hts & Hpfc) Hv Hndt Hng Hin Hnds Hs Hok.
+  intros K2 V1 V2 HQ HQg HQa Hq Ht Hc (Hgood & Hno & Hpfc) Hv Hndt Hng Hin Hnds Hs Hok.
   assert (Hne : name <> "").
   { apply in_map_iff in Hin as ([n0 t] & E & Hnt). cbn in E. subst n0. now destruct (validate_In cfg name t Hv Hnt). }
   assert (Hpf : pf_items name tf0 s).
-  { apply (pf_items_of_check name s [] [] None); auto. }
-  destruct (relay_multi_tf name Keys Vals Q Qr K2 V1 V2 HQ HQg HQa Hne cq Hq Ht Hc s Hgood Hts Hpf
+  { apply (pf_items_of_check name s [] []); auto. constructor. }
+  destruct (relay_multi_tf name Keys Vals Q Qr K2 V1 V2 HQ HQg HQa Hne cq Hq Ht Hc s Hgood Hpf
               cfg ss sched Hv Hndt Hng Hin Hnds Hs Hok) as (l & Hp & Hnd & Hl).
-  exists l. split; [assumption|].
-  pose proof (NoDup_replay s) as HndF.
-  assert (Heq : forall k, option_map snd (tf_run name s k) = flook (replay s) k).
-  { intros k. apply (run_equiv name s [] [] None); auto. }
-  apply NoDup_Permutation.
-  - now apply NoDup_of_keys.
-  - apply NoDup_of_keys. unfold selects. apply NoDup_keys_filter. now apply NoDup_stamp_paths.
-  - intros [p sc]. rewrite Hl. unfold selects. rewrite filter_In. cbn [fst]. rewrite in_stamp_paths. split.
-    + intros (k & -> & Hu & Hd). split; [|exact Hu]. specialize (Heq k).
-      destruct (tf_run name s k) as [[t0 v]|]; [|discriminate]. cbn in Heq, Hd.
-      exists k, v. split; [apply flook_In; auto|auto].
-    + intros [(k & v & Hkv & Hs' & ->) Hu]. exists k. split; [reflexivity|]. split; [exact Hu|].
-      apply (flook_In _ _ _ HndF) in Hkv. specialize (Heq k). rewrite Hkv in Heq.
-      destruct (tf_run name s k) as [[t0 v0]|]; [|discriminate]. cbn in Heq. inversion Heq; subst. exact Hs'.
+  exists l. split; [assumption|]. now apply (leaves_of_tf name Q s l).
 Qed.
 
 (** the same without the auxiliary key set: every update path is glob-free and
@@ -2575,8 +2526,10 @@ Definition s1 : list item :=
     ISync;
     IUpd {| n_ts := 200; n_prefix := Some (gp "foo" [el "x"]);
             n_updates := [(gp "" [el "y"], TVDecimal 15 1)]; n_deletes := [] |};
-    IUpd {| n_ts := 300; n_prefix := None;
-            n_updates := [(gp "" [el "a"; el "d"], TVString "up")];
+    (* older than the previous notification; the leaf a/d repeated: the second
+       copy is rejected as stale; the delete still takes effect *)
+    IUpd {| n_ts := 150; n_prefix := None;
+            n_updates := [(gp "" [el "a"; el "d"], TVString "up"); (gp "" [el "a"; el "d"], TVString "up")];
             n_deletes := [gp "" [el "a"; eth0]] |} ].
 Definition s2 : list item :=
   [ IUpd {| n_ts := 7; n_prefix := None; n_updates := [(gp "" [el "a"], TVAscii "x")]; n_deletes := [] |} ].
@@ -2604,7 +2557,7 @@ Proof.
   - reflexivity.
   - reflexivity.
   - reflexivity.
-  - split; [|split; [|split; reflexivity]].
+  - split; [|split; [|reflexivity]].
     + assert (Hi : forall nt, g_origin (spre "dev1" nt) <> meta_root ->
                 (forall u, In u (n_updates nt) ->
                    rec_ok "dev1" (fun k => glob_free k = true /\ strict_prefix ("dev1" :: k) ["dev1"] = false)
@@ -2685,6 +2638,22 @@ Proof.
   eexists. split; [vm_compute; reflexivity|]. vm_compute. intros Hp.
   apply Permutation_nil in Hp. discriminate.
 Qed.
+
+(** a multi-operation notification one of whose updates the cache rejects: X at
+    100, Y at 200, then ONE notification at 200 that repeats Y unchanged (stale)
+    and deletes X.  The rejected update is a no-op, the delete applies: the
+    subscriber is left with Y only, as the replay says. *)
+Definition s_rejected : list item :=
+  [upd 100 None (gp "" [el "a"; el "x"]) (TVInt 1);
+   upd 200 None (gp "" [el "a"; el "y"]) (TVInt 2);
+   IUpd {| n_ts := 200; n_prefix := None; n_updates := [(gp "" [el "a"; el "y"], TVInt 2)];
+           n_deletes := [gp "" [el "a"; el "x"]] |}].
+
+Lemma rejected_update_keeps_deletes :
+  pipeline cfg1 [("dev1", s_rejected)] q [AIngest "dev1"; AIngest "dev1"; ASubscribe; ASend; ASend; ASend]
+    = VLeaves [(["dev1"; "openconfig"; "a"; "y"], SInt 2)] /\
+  selects ["dev1"] (stamp_paths "dev1" (replay s_rejected)) = [(["dev1"; "openconfig"; "a"; "y"], SInt 2)].
+Proof. vm_compute. split; reflexivity. Qed.
 
 (** regression witness for DEFECT C01_3 (fixed by 6b65ac8): prefix in elem, path
     in the deprecated element encoding.  The delete notification of the code
